@@ -86,6 +86,11 @@ func txCase(e *emitter, q string, kvs [][2]string, bucket string) {
 			B = 32
 		}
 		res := txRun(q, kvs, m != 0, B)
+		if res.BuildErr && res.Panic == "" && isAggArityErr(res.Err) {
+			e.m.OutOfModel++
+			e.count("tx/aggregate_argument_count(judged_by_C14_stream_agg)")
+			return
+		}
 		term, short := txClass(res)
 		if _, have := modesOf[term]; !have {
 			groups = append(groups, term)
